@@ -684,6 +684,70 @@ def spec_http_readers(ck):
     ck.bounds['http-readers'] = 'request / response head of <= 24 bytes in any segmentation, <= 5 header lines; CONNECT target string <= 24 bytes'
 
 
+def spec_http_head_truncation(ck):
+    """HttpRequest::read_from / HttpResponse::read_from on a stream that ENDS (any ASCII bytes, then end of stream): the end of
+    the stream itself is never taken for the blank line that ends a head -- a head cut off after its start line or in the middle
+    of its headers is an error, not a (partial) message."""
+    import harness
+    from specs.codec import new_stream
+    ck.plans.append(_http_truncation_replay_plan)
+    for recv in ('HttpRequest', 'HttpResponse'):
+        fn = ck.find(lambda r=recv: ck.db.method(r, 'read_from'), recv + '::read_from')
+        if fn is None:
+            continue
+        ex = ck.engine(loop_bound=4, call_depth=8)
+        ex.benign_havoc = harness.IRRELEVANT
+        st = State()
+        inp = Bytes.symbolic('peer_bytes', 'in')
+        ex.assume(st, z3.ULE(inp.len, BV(20, 64)))
+        for i in range(20):
+            ex.assume(st, z3.ULT(inp.at(i), BV(0x80, 8)))
+        scell = new_stream(ex, st, 'peer', inp)
+        ex.inputs = {'peer_bytes': inp}
+        outs = run_async(ex, st, fn, [Ref(scell, ())])
+        reached = 0
+        for o, r in outs:
+            if o.status != 'returned' or r is None:
+                continue
+            ok, _ = _ok_payload(r)
+            reached += 1
+            scans = [e for e in o.trace if e[0] in ('read', 'eof') and e[1] == 'peer']
+            last = scans[-1] if scans else None
+            at_bare_eof = z3.BoolVal(False)
+            if last is not None and last[0] == 'eof':
+                at_bare_eof = last[2] == BV(0, 64) if not isinstance(last[2], int) else z3.BoolVal(last[2] == 0)
+            ex.prove(o, 'C12/http-head/end-of-stream-is-not-taken-for-the-end-of-the-head', z3.Implies(ok, z3.Not(at_bare_eof)))
+        if not reached:
+            ck.add('C12/http-head/reachability/' + recv, 'vacuous', 'the reader never returned in the model')
+        for f in ex.findings:
+            if not hasattr(f, 'target'):
+                f.target = 'http truncation ' + recv
+        ck.absorb(ex, recv + '::read_from (truncation)', [o for o, _ in outs])
+    ck.bounds['http-head-truncation'] = 'ASCII stream of <= 20 bytes followed by end of stream; <= 3 header lines'
+
+
+def _head_has_blank_line(raw):
+    """does the text contain, after its first line, a line that is empty once trailing white space is removed (Rust trim_end)?
+    the unterminated tail counts as a line only if it has at least one byte"""
+    parts = raw.split(b'\n')
+    lines, tail = parts[:-1], parts[-1]
+    cand = lines[1:] + ([tail] if (tail != b'' and lines) else [])
+    return any(x.strip() == b'' for x in cand)
+
+
+def _http_truncation_replay_plan(ob):
+    t = ob.target or ''
+    if not t.startswith('http truncation ') or ob.finding is None or not ob.label.startswith('C12/http-head/'):
+        return None
+    which = t.rsplit(' ', 1)[1]
+    hx = ((ob.finding.inputs or {}).get('peer_bytes') or {}).get('hex', '')
+    raw = bytes.fromhex(hx)
+    std = b'CONNECT a:1 HTTP/1.1\r\n' if which == 'HttpRequest' else b'HTTP/1.1 200 OK\r\n'
+    variants = [v for v in (raw, std, std + b'X: y\r\n', std + b'X: y') if not _head_has_blank_line(v)]
+    cases = [{'driver': 'http_head', 'args': {'which': which, 'bytes': v.hex()}} for v in variants]
+    return 'h11c', cases, lambda o: str(o.get('result', '')).startswith('Ok(')
+
+
 def _http_replay_plan(ob):
     t = ob.target or ''
     if not t.startswith('http ') or ob.label.startswith('C0'):
